@@ -45,7 +45,7 @@ func projLib(l config.LibDefaults) map[string]interface{} {
 		"default_tgs_enctypes": ids(l.DefaultTGSEnctypeIDs), "default_tkt_enctypes": ids(l.DefaultTktEnctypeIDs), "permitted_enctypes": ids(l.PermittedEnctypeIDs),
 		"ccache_type": n(l.CCacheType), "kdc_timesync": n(l.KDCTimeSync), "realm_try_domains": n(l.RealmTryDomains), "safe_checksum_type": n(l.SafeChecksumType),
 		"udp_preference_limit": n(l.UDPPreferenceLimit),
-		"default_realm": s(l.DefaultRealm), "default_keytab_name": s(l.DefaultKeytabName), "default_client_keytab_name": s(l.DefaultClientKeytabName),
+		"default_realm":        s(l.DefaultRealm), "default_keytab_name": s(l.DefaultKeytabName), "default_client_keytab_name": s(l.DefaultClientKeytabName),
 		"k5login_directory": s(l.K5LoginDirectory),
 	}
 }
